@@ -1,11 +1,26 @@
 import Autd3.Model.Wire
 import Autd3.Model.Obs
+import Autd3.Lemmas.RtExample
+import Autd3.Lemmas.RtNew
+import Autd3.Lemmas.RtOps6
 /-!
 # C01 — what is sent is what the device holds
 
 First layer (regenerated from the sources on every run): the driver and the firmware model agree on
 every wire header layout, every tag is dispatched, flag bits agree, page geometry fits the memories.
 The round-trip theorems over `Wire ∘ Fw ∘ Obs` are in the second half of this file.
+
+Second layer (this file, from "round trips" on): for EVERY well-formed prior state `s` (`Rt.WF`: the seven
+memories have their hardware sizes, ≤ 249 transducers, no strobe bit latched in the CPU's flag word,
+swap chains with positive divisions/cycles, positive sampling-division registers), every transmit
+buffer `t` with a 622-byte payload (`Rt.TxOK`, stale content arbitrary) whose next message id the device
+has not just processed (`Rt.Fresh`), and every content: the datagram is packed by `Wire.Op.pack` /
+`packOp`, framed by `Tx.frame`, delivered by `Fw.ecatRecv` frame by frame until the operation is done
+(`Rt.Sends`, the send loop of one device), every frame is acknowledged without error, and the read-back
+accessors `Obs.*` then return what the user supplied.  Each theorem also re-establishes `WF`, `TxOK`,
+`Fresh`, so the theorems chain over arbitrary sequences of datagrams.  Firmware-side guards
+(`validate_transition_mode`, `validate_silencer_settings`, the SysTime margin) appear as explicit
+hypotheses on the prior state: they are exactly the conditions under which the firmware accepts.
 -/
 namespace Autd3.C01
 open Autd3 Autd3.Gen
@@ -88,5 +103,348 @@ theorem page_geometry :
     Drv.FOCI_STM_BUF_SIZE_MAX = 16 * Cpu.FOCI_STM_BUF_PAGE_SIZE ∧
     Drv.GAIN_STM_BUF_SIZE_MAX = 16 * Cpu.GAIN_STM_BUF_PAGE_SIZE ∧
     Drv.EC_OUTPUT_FRAME_SIZE - DrvLayout.Header_size = 622 := by decide
+
+/-! ## round trips -/
+
+open Autd3.Fw Autd3.Wire Autd3.Rt
+
+/-- the executable loop `Rt.sendLoop` is what `Rt.Sends` abbreviates (no hidden assumptions) -/
+theorem sends_def (dg : Dg) (s : State) (t t' : Tx) (s' : State) :
+    Sends dg s t t' s' ↔ ∃ fuel, sendLoop fuel (Op.ofDg dg) s t = some (t', s') := Iff.rfl
+
+/-- `WF` is not vacuous: a concrete power-on-like state, the default transmit buffer -/
+theorem wf_nonvacuous : WF exState ∧ TxOK exTx ∧ Fresh exState exTx := ⟨WF_exState, TxOK_exTx, Fresh_ex⟩
+
+/-- `WF` holds for a freshly created device (`CPUEmulator::new` = allocate + `clear`): `init()` does not
+panic and leaves a well-formed state, for every clock reading and every transducer count ≤ 249 -/
+theorem wf_of_new (numTr now : Nat) (hn : numTr ≤ 249) : ∃ s, Fw.new numTr now = .ok s ∧ WF s :=
+  new_WF numTr now hn
+
+/-- `handle_payload` dispatches a modulation tag to `write_mod` (representative; one per tag in Lemmas) -/
+theorem dispatch_modulation (s : State) (d : Array Nat) (h : u8at d 0 = Cpu.TAG_MODULATION) :
+    handlePayload s d = writeMod s d := dispatch_mod s d h
+
+/-- the payload of a frame is the tx buffer's payload, the header carries id and slot-2 offset -/
+theorem frame_indexing (t : Tx) :
+    (Tx.frame t).extract DrvLayout.Header_size (Tx.frame t).size = t.payload ∧
+    u8at (Tx.frame t) DrvLayout.Header_msg_id_off = t.msgId % 256 ∧
+    u16at (Tx.frame t) DrvLayout.Header_slot_2_offset_off = t.slot2 % 65536 :=
+  ⟨frame_extract t, frame_id t, frame_slot2 t⟩
+
+/-- byte/word packing: a field written by the driver's `put*` is read back by the firmware's `u*at` -/
+theorem put_get (b : Array Nat) (i v : Nat) :
+    (i < b.size → u8at (put8 b i v) i = v % 256) ∧
+    (i + 1 < b.size → u16at (put16 b i v) i = v % 65536) ∧
+    (i + 7 < b.size → u64at (put64 b i v) i = v % 18446744073709551616) :=
+  ⟨fun h => by rw [u8at_put8, if_pos ⟨rfl, h⟩], u16at_put16_same b i v, u64at_put64_same b i v⟩
+
+/-- `bram_cpy` = pointwise write: closed forms of the four bulk writers -/
+theorem bulk_writes_closed_form (m : Array Nat) (off : Nat) (ws : Array Nat) (j : Nat) :
+    (wrWords m off ws).size = m.size ∧
+    rd (wrWords m off ws) j =
+      if off ≤ j ∧ j < off + ws.size ∧ j < m.size then rd ws (j - off) % 65536 else rd m j :=
+  ⟨size_wrWords m off ws, rd_wrWords m off ws j⟩
+
+theorem modWriteWords_closed_form (s : State) (base : Nat) (words : Array Nat)
+    (hseg : reg s Cpu.ADDR_MOD_MEM_WR_SEGMENT ≤ 1) (hb : base % 16384 + words.size ≤ 16384)
+    (hp : reg s Cpu.ADDR_MOD_MEM_WR_PAGE * 16384 + base % 16384 + words.size ≤ 32768) :
+    modWriteWords s base words =
+      .ok (setModMem s (reg s Cpu.ADDR_MOD_MEM_WR_SEGMENT)
+        (wrWords (Obs.modMem s (reg s Cpu.ADDR_MOD_MEM_WR_SEGMENT))
+          (reg s Cpu.ADDR_MOD_MEM_WR_PAGE * 16384 + base % 16384) words)) :=
+  modWriteWords_eq s base words hseg hb hp
+
+theorem stmWriteWords_closed_form (s : State) (base : Nat) (words : Array Nat)
+    (hseg : reg s Cpu.ADDR_STM_MEM_WR_SEGMENT ≤ 1) (hb : base % 16384 + words.size ≤ 16384)
+    (hp : reg s Cpu.ADDR_STM_MEM_WR_PAGE * 16384 + base % 16384 + words.size ≤ 262144) :
+    stmWriteWords s base words =
+      .ok (setStmMem s (reg s Cpu.ADDR_STM_MEM_WR_SEGMENT)
+        (wrWords (Obs.stmMem s (reg s Cpu.ADDR_STM_MEM_WR_SEGMENT))
+          (reg s Cpu.ADDR_STM_MEM_WR_PAGE * 16384 + base % 16384) words)) :=
+  stmWriteWords_eq s base words hseg hb hp
+
+/-- `ecat_recv` on a fresh single-slot frame whose handler acknowledges: CTL_FLAG rewritten, ack = id -/
+theorem ecatRecv_fresh_frame (s : State) (t : Tx) (hid : t.msgId < 128) (hslot : t.slot2 = 0)
+    (hfresh : s.lastMsgId ≠ t.msgId) (s1 : State)
+    (hh : handlePayload (pre s t.msgId) t.payload = .ok (s1, Cpu.NO_ERR)) :
+    ecatRecv s t.frame = .ok (fin s1 t.msgId) := ecatRecv_single s t hid hslot hfresh s1 hh
+
+/-! ### one-frame datagrams -/
+
+theorem forceFan_roundtrip (s : State) (t : Tx) (v : Bool) (hWF : WF s) (ht : TxOK t) (hf : Fresh s t) :
+    ∃ t' s', Sends (.forceFan v) s t t' s' ∧ WF s' ∧ TxOK t' ∧ Fresh s' t' ∧ Obs.isForceFan s' = v :=
+  forceFan_roundtrip' s t v hWF ht hf
+
+theorem readsFpgaState_roundtrip (s : State) (t : Tx) (hWF : WF s) (ht : TxOK t) (hf : Fresh s t) (v : Bool) :
+    ∃ t' s', Sends (.readsFpgaState v) s t t' s' ∧ WF s' ∧ TxOK t' ∧ Fresh s' t' ∧ s'.readsFpgaState = v :=
+  readsFpgaState_roundtrip' s t hWF ht hf v
+
+theorem cpuGpioOut_roundtrip (s : State) (t : Tx) (hWF : WF s) (ht : TxOK t) (hf : Fresh s t) (v : Nat) (hv : v < 256) :
+    ∃ t' s', Sends (.cpuGpioOut v) s t t' s' ∧ WF s' ∧ TxOK t' ∧ Fresh s' t' ∧ s'.portA = v :=
+  cpuGpioOut_roundtrip' s t hWF ht hf v hv
+
+/-- GPIO-in emulation: the four request bits appear as the FPGA's GPIO inputs -/
+theorem gpioIn_roundtrip (s : State) (t : Tx) (hWF : WF s) (ht : TxOK t) (hf : Fresh s t) (flags : Nat)
+    (hfl : flags < 256) :
+    ∃ t' s', Sends (.gpioIn flags) s t t' s' ∧ WF s' ∧ TxOK t' ∧ Fresh s' t' ∧
+      Fw.gpioIn s' 0 = hasFlag flags Cpu.GPIO_IN_FLAG_0 ∧ Fw.gpioIn s' 1 = hasFlag flags Cpu.GPIO_IN_FLAG_1 ∧
+      Fw.gpioIn s' 2 = hasFlag flags Cpu.GPIO_IN_FLAG_2 ∧ Fw.gpioIn s' 3 = hasFlag flags Cpu.GPIO_IN_FLAG_3 :=
+  gpioIn_roundtrip' s t hWF ht hf flags hfl
+
+/-- Silencer, fixed completion steps (accepted case: the firmware's guard is the explicit hypothesis) -/
+theorem silencerSteps_roundtrip (s : State) (t : Tx) (hWF : WF s) (ht : TxOK t) (hf : Fresh s t)
+    (i p : Nat) (strict : Bool) (hi : 0 < i ∧ i < 65536) (hp : 0 < p ∧ p < 65536)
+    (hg : validateSilencerSettings { s with strict := strict, minDivI := i, minDivP := p }
+      (sel s.stmDiv s.stmSegment) (sel s.modDiv s.modSegment) = false) :
+    ∃ t' s', Sends (.silencerSteps i p strict) s t t' s' ∧ WF s' ∧ TxOK t' ∧ Fresh s' t' ∧
+      Obs.silencerCompletionSteps s' = .ok (i, p) ∧ Obs.silencerFixedUpdateRateMode s' = false ∧
+      s'.strict = strict :=
+  silencerSteps_roundtrip' s t hWF ht hf i p strict hi hp hg
+
+/-- Silencer, fixed update rate (always accepted) -/
+theorem silencerRate_roundtrip (s : State) (t : Tx) (hWF : WF s) (ht : TxOK t) (hf : Fresh s t)
+    (i p : Nat) (hi : i < 65536) (hp : p < 65536) :
+    ∃ t' s', Sends (.silencerRate i p) s t t' s' ∧ WF s' ∧ TxOK t' ∧ Fresh s' t' ∧
+      Obs.silencerUpdateRate s' = (i, p) ∧ Obs.silencerFixedUpdateRateMode s' = true ∧ s'.strict = s.strict :=
+  silencerRate_roundtrip' s t hWF ht hf i p hi hp
+
+/-- pulse-width table: all 256 entries -/
+theorem pwe_roundtrip (s : State) (t : Tx) (hWF : WF s) (ht : TxOK t) (hf : Fresh s t) (table : Array Nat)
+    (hsz : table.size = 256) (hv : ∀ i, rd table i < 512) :
+    ∃ t' s', Sends (.pwe table) s t t' s' ∧ WF s' ∧ TxOK t' ∧ Fresh s' t' ∧ Obs.pweTable s' = .ok table :=
+  pwe_roundtrip' s t hWF ht hf table hsz hv
+
+/-- phase correction: one byte per transducer -/
+theorem phaseCorr_roundtrip (s : State) (t : Tx) (hWF : WF s) (ht : TxOK t) (hf : Fresh s t) (bytes : Array Nat)
+    (hsz : bytes.size = s.numTr) (hv : ∀ i, rd bytes i < 256) :
+    ∃ t' s', Sends (.phaseCorr bytes) s t t' s' ∧ WF s' ∧ TxOK t' ∧ Fresh s' t' ∧ Obs.phaseCorrection s' = bytes :=
+  phaseCorr_roundtrip' s t hWF ht hf bytes hsz hv
+
+/-- GPIO outputs: the four 64-bit debug values (type byte and 56-bit value) -/
+theorem debug_roundtrip (s : State) (t : Tx) (hWF : WF s) (ht : TxOK t) (hf : Fresh s t) (vals : Array Nat)
+    (hv : ∀ i, rd vals i < 18446744073709551616) :
+    ∃ t' s', Sends (.debug vals) s t t' s' ∧ WF s' ∧ TxOK t' ∧ Fresh s' t' ∧
+      Obs.debugValues s' = #[rd vals 0 % 72057594037927936, rd vals 1 % 72057594037927936,
+        rd vals 2 % 72057594037927936, rd vals 3 % 72057594037927936] ∧
+      Obs.debugTypes s' = #[rd vals 0 / 72057594037927936, rd vals 1 / 72057594037927936,
+        rd vals 2 / 72057594037927936, rd vals 3 / 72057594037927936] :=
+  debug_roundtrip' s t hWF ht hf vals hv
+
+/-! ### segment swaps -/
+
+/-- SwapSegment::Modulation: request register, transition, swap-chain `set`, nothing else of the
+modulation resources moves -/
+theorem swapMod_roundtrip (s : State) (t : Tx) (hWF : WF s) (ht : TxOK t) (hf : Fresh s t)
+    (seg mode value : Nat) (hseg : seg ≤ 1) (hv : ValidTr mode value) (hval : value < 18446744073709551616)
+    (g1 : validateTransitionMode s.modSegment seg (sel s.modRep seg) mode = false)
+    (g2 : validateSilencerSettings s (sel s.stmDiv s.stmSegment) (sel s.modDiv seg) = false)
+    (hmiss : ¬(mode = Cpu.TRANSITION_MODE_SYS_TIME ∧ value < s.dcSysTime + Cpu.SYS_TIME_TRANSITION_MARGIN)) :
+    ∃ t' s', Sends (.swapMod seg mode value) s t t' s' ∧ WF s' ∧ TxOK t' ∧ Fresh s' t' ∧
+      Obs.reqModSeg s' = .ok seg ∧ Obs.modTransition s' = .ok (tmodeOf mode value) ∧ s'.modSegment = seg ∧
+      SwapSet s.modSwap s'.modSwap s.dcSysTime (Obs.modRep s seg) (Obs.modDiv s seg) (Obs.modCycle s seg) seg
+        (tmodeOf mode value) ∧
+      s'.modMem0 = s.modMem0 ∧ s'.modMem1 = s.modMem1 ∧
+      (∀ g, g ≤ 1 → Obs.modDiv s' g = Obs.modDiv s g ∧ Obs.modCycle s' g = Obs.modCycle s g ∧
+        Obs.modRep s' g = Obs.modRep s g) :=
+  swapMod_roundtrip' s t hWF ht hf seg mode value hseg hv hval g1 g2 hmiss
+
+theorem swapFoci_roundtrip (s : State) (t : Tx) (hWF : WF s) (ht : TxOK t) (hf : Fresh s t)
+    (seg mode value : Nat) (hseg : seg ≤ 1) (hv : ValidTr mode value) (hval : value < 18446744073709551616)
+    (g0 : sel s.stmMode seg = Cpu.STM_MODE_FOCUS)
+    (g1 : validateTransitionMode s.stmSegment seg (sel s.stmRep seg) mode = false)
+    (g2 : validateSilencerSettings s (sel s.stmDiv seg) (sel s.modDiv s.modSegment) = false)
+    (hmiss : ¬(mode = Cpu.TRANSITION_MODE_SYS_TIME ∧ value < s.dcSysTime + Cpu.SYS_TIME_TRANSITION_MARGIN)) :
+    ∃ t' s', Sends (.swapFoci seg mode value) s t t' s' ∧ WF s' ∧ TxOK t' ∧ Fresh s' t' ∧
+      Obs.reqStmSeg s' = .ok seg ∧ Obs.stmTransition s' = .ok (tmodeOf mode value) ∧ s'.stmSegment = seg ∧
+      SwapSet s.stmSwap s'.stmSwap s.dcSysTime (Obs.stmRep s seg) (Obs.stmDiv s seg) (Obs.stmCycle s seg) seg
+        (tmodeOf mode value) ∧
+      s'.stmMem0 = s.stmMem0 ∧ s'.stmMem1 = s.stmMem1 ∧
+      (∀ g, g ≤ 1 → Obs.stmDiv s' g = Obs.stmDiv s g ∧ Obs.stmCycle s' g = Obs.stmCycle s g ∧
+        Obs.stmRep s' g = Obs.stmRep s g ∧ Obs.isStmGainMode s' g = Obs.isStmGainMode s g) :=
+  swapFoci_roundtrip' s t hWF ht hf seg mode value hseg hv hval g0 g1 g2 hmiss
+
+theorem swapGainStm_roundtrip (s : State) (t : Tx) (hWF : WF s) (ht : TxOK t) (hf : Fresh s t)
+    (seg mode value : Nat) (hseg : seg ≤ 1) (hv : ValidTr mode value) (hval : value < 18446744073709551616)
+    (g0 : sel s.stmMode seg = Cpu.STM_MODE_GAIN ∧ sel s.stmCycle seg ≠ 1)
+    (g1 : validateTransitionMode s.stmSegment seg (sel s.stmRep seg) mode = false)
+    (g2 : validateSilencerSettings s (sel s.stmDiv seg) (sel s.modDiv s.modSegment) = false)
+    (hmiss : ¬(mode = Cpu.TRANSITION_MODE_SYS_TIME ∧ value < s.dcSysTime + Cpu.SYS_TIME_TRANSITION_MARGIN)) :
+    ∃ t' s', Sends (.swapGainStm seg mode value) s t t' s' ∧ WF s' ∧ TxOK t' ∧ Fresh s' t' ∧
+      Obs.reqStmSeg s' = .ok seg ∧ Obs.stmTransition s' = .ok (tmodeOf mode value) ∧ s'.stmSegment = seg ∧
+      SwapSet s.stmSwap s'.stmSwap s.dcSysTime (Obs.stmRep s seg) (Obs.stmDiv s seg) (Obs.stmCycle s seg) seg
+        (tmodeOf mode value) ∧
+      s'.stmMem0 = s.stmMem0 ∧ s'.stmMem1 = s.stmMem1 ∧
+      (∀ g, g ≤ 1 → Obs.stmDiv s' g = Obs.stmDiv s g ∧ Obs.stmCycle s' g = Obs.stmCycle s g ∧
+        Obs.stmRep s' g = Obs.stmRep s g ∧ Obs.isStmGainMode s' g = Obs.isStmGainMode s g) :=
+  swapGainStm_roundtrip' s t hWF ht hf seg mode value hseg hv hval g0 g1 g2 hmiss
+
+theorem swapGain_roundtrip (s : State) (t : Tx) (hWF : WF s) (ht : TxOK t) (hf : Fresh s t)
+    (seg value : Nat) (hseg : seg ≤ 1)
+    (g0 : sel s.stmMode seg = Cpu.STM_MODE_GAIN ∧ sel s.stmCycle seg = 1) :
+    ∃ t' s', Sends (.swapGain seg Drv.TRANSITION_MODE_IMMEDIATE value) s t t' s' ∧ WF s' ∧ TxOK t' ∧ Fresh s' t' ∧
+      Obs.reqStmSeg s' = .ok seg ∧ Obs.stmTransition s' = .ok .syncIdx ∧ s'.stmSegment = seg ∧
+      SwapSet s.stmSwap s'.stmSwap s.dcSysTime (Obs.stmRep s seg) (Obs.stmDiv s seg) (Obs.stmCycle s seg) seg .syncIdx ∧
+      s'.stmMem0 = s.stmMem0 ∧ s'.stmMem1 = s.stmMem1 ∧
+      (∀ g, g ≤ 1 → Obs.stmDiv s' g = Obs.stmDiv s g ∧ Obs.stmCycle s' g = Obs.stmCycle s g ∧
+        Obs.stmRep s' g = Obs.stmRep s g ∧ Obs.isStmGainMode s' g = Obs.isStmGainMode s g) :=
+  swapGain_roundtrip' s t hWF ht hf seg value hseg g0
+
+/-! ### Gain -/
+
+/-- Gain: `drives_at(seg, 0)` = the user's drives (phase + stored phase correction, intensity kept),
+cycle 1, gain mode, division/loop 0xFFFF, the other segment's memory and registers untouched; the
+request register is written (segment current at once: loop count 0xFFFF) iff the datagram carries a
+transition, otherwise the request/transition registers and the swap chain are untouched -/
+theorem gain_roundtrip (s : State) (t : Tx) (hWF : WF s) (ht : TxOK t) (hf : Fresh s t)
+    (seg : Nat) (hseg : seg ≤ 1) (tr : Tr)
+    (htr : tr = none ∨ ∃ v, tr = some (Drv.TRANSITION_MODE_IMMEDIATE, v))
+    (drives : Array Nat) (hdr : ∀ i, rd drives i < 65536) :
+    ∃ t' s', Sends (.gain seg tr drives) s t t' s' ∧ WF s' ∧ TxOK t' ∧ Fresh s' t' ∧
+      GainHeld s s' seg drives ∧
+      (tr = none → s'.stmSwap = s.stmSwap ∧ Obs.reqStmSeg s' = Obs.reqStmSeg s ∧
+        Obs.stmTransition s' = Obs.stmTransition s ∧ s'.stmSegment = s.stmSegment ∧ s'.stmMode = s.stmMode) ∧
+      (tr.isSome = true → Obs.reqStmSeg s' = .ok seg ∧ Obs.stmTransition s' = .ok .syncIdx ∧
+        Obs.currentStmSeg s' = seg ∧ s'.stmSegment = seg ∧
+        SwapSet s.stmSwap s'.stmSwap s.dcSysTime 0xFFFF 0xFFFF 1 seg .syncIdx ∧ s'.stmMode = s.stmMode) := by
+  rcases htr with h | ⟨v, h⟩
+  · subst h
+    obtain ⟨t', s', h1, h2, h3, h4, h5, h6⟩ := gain_roundtrip_noupd s t hWF ht hf seg hseg drives hdr
+    exact ⟨t', s', h1, h2, h3, h4, h5, fun _ => h6, fun h => by simp at h⟩
+  · subst h
+    obtain ⟨t', s', h1, h2, h3, h4, h5, h6⟩ := gain_roundtrip_upd s t hWF ht hf seg v hseg drives hdr
+    exact ⟨t', s', h1, h2, h3, h4, h5, fun h => by simp at h, fun _ => h6⟩
+
+/-- SUSPECTED DEFECT (not one of F1–F17), witnessed on the model: `write_gain` never sets the CPU's
+per-segment mode copy `stm_mode[segment]` (see `gain_roundtrip`: `s'.stmMode = s.stmMode`, while the
+FPGA register says gain mode), and `change_gain_segment` tests that stale copy.  So after a FociSTM in
+a segment, a Gain written to the same segment (without transition) reads back correctly, but
+SwapSegment::Gain to it is refused with `ERR_INVALID_SEGMENT_TRANSITION`, state unchanged. -/
+theorem swapGain_refused_on_stale_mode_copy (s : State) (d : Array Nat) (seg : Nat) (hseg : seg ≤ 1)
+    (h0 : u8at d 0 = Cpu.TAG_GAIN_CHANGE_SEGMENT) (h1 : u8at d 1 = seg)
+    (hm : sel s.stmMode seg ≠ Cpu.STM_MODE_GAIN) :
+    handlePayload s d = .ok (s, Cpu.ERR_INVALID_SEGMENT_TRANSITION) := by
+  unfold handlePayload; rw [h0]
+  show changeGainSegment _ _ = _
+  unfold changeGainSegment
+  simp only [FwLayout.GainUpdate_segment_off, h1]
+  rw [if_neg (by omega)]
+  simp [hm]
+
+/-- the driver refuses any other transition mode for a Gain (nothing is packed) -/
+theorem gain_other_transition_rejected (seg m v : Nat) (drives : Array Nat) (n : Nat) (b : Array Nat)
+    (hm : m ≠ Drv.TRANSITION_MODE_IMMEDIATE) :
+    (Op.ofDg (.gain seg (some (m, v)) drives)).pack n b 0 = .error .invalidTransitionMode := by
+  unfold Op.pack; simp [Op.ofDg, hm]
+
+/-! ### Modulation -/
+
+/-- chunk arithmetic, driver side: the first frame carries `min n 254` samples with the full header -/
+theorem mod_pack_first (seg : Nat) (tr : Tr) (rep div : Nat) (samples : Array Nat) (nt : Nat) (b : Array Nat)
+    (hb : b.size = 622) (hn : 2 ≤ samples.size) (hn' : samples.size ≤ 65536) :
+    (Op.ofDg (.modulation seg tr rep div samples)).pack nt b 0 =
+      .ok ({ dg := .modulation seg tr rep div samples, sent := min samples.size 254,
+             done := decide (samples.size ≤ 254) },
+        modFirstPayload b samples (min samples.size 254)
+          (modFlagByte true (decide (samples.size ≤ 254)) seg tr.isSome) (trMode tr) div rep (trValue tr),
+        16 + ((min samples.size 254 + 1) / 2) * 2) :=
+  pack_mod_first seg tr rep div samples nt b hb hn hn'
+
+/-- chunk arithmetic, driver side: every later frame carries `min (n - sent) 618` samples -/
+theorem mod_pack_next (seg : Nat) (tr : Tr) (rep div : Nat) (samples : Array Nat) (nt : Nat) (b : Array Nat) (c : Nat)
+    (hb : b.size = 622) (hc0 : 0 < c) (hcn : c < samples.size) (hn : samples.size ≤ 65536) (hn2 : 2 ≤ samples.size) :
+    ({ dg := .modulation seg tr rep div samples, sent := c, done := false } : Op).pack nt b 0 =
+      .ok ({ dg := .modulation seg tr rep div samples, sent := c + min (samples.size - c) 618,
+             done := decide (samples.size - c ≤ 618) },
+        modNextPayload b samples c (min (samples.size - c) 618)
+          (modFlagByte false (decide (samples.size - c ≤ 618)) seg tr.isSome),
+        4 + ((min (samples.size - c) 618 + 1) / 2) * 2) :=
+  pack_mod_next seg tr rep div samples nt b c hb hc0 hcn hn hn2
+
+/-- every non-final chunk is even, hence the cursor `254 + 618·k` is even at every chunk start -/
+theorem mod_cursor_even (n k : Nat) : (254 + 618 * k) % 2 = 0 ∧ (n > 254 → min n 254 % 2 = 0) ∧
+    (∀ c, n - c > 618 → min (n - c) 618 % 2 = 0) := by
+  refine ⟨by omega, fun h => by omega, fun c h => by omega⟩
+
+/-- page-crossing lemma, firmware side: with an even cursor `c` pointing into the page selected by the
+write-page register, the copy part of `write_mod` puts the `w` frame bytes at `c … c+w-1` of the
+target segment — also when the chunk crosses or exactly reaches the 32768-sample page boundary
+(split copy, page register advanced) — and touches nothing below the cursor, nothing in the other
+segment, no register but the write page -/
+theorem mod_copy_with_page_split (s : State) (hW : WF s) (d : Array Nat) (off w seg c : Nat)
+    (hc : s.modCycle = c) (hc2 : c % 2 = 0) (hcw : c + w ≤ 65536) (hc3 : c < 65536)
+    (hsr : reg s Cpu.ADDR_MOD_MEM_WR_SEGMENT = seg) (hseg : seg ≤ 1)
+    (hpage : reg s Cpu.ADDR_MOD_MEM_WR_PAGE = c / 32768) :
+    ∃ s', modDataPart s d off w = .ok s' ∧ ModCopied s s' seg c w d off :=
+  modDataPart_ok s hW d off w seg c hc hc2 hcw hc3 hsr hseg hpage
+
+/-- `write_mod` is header ∘ copy ∘ end (following frames) -/
+theorem writeMod_following_frame (s : State) (d : Array Nat)
+    (hb : hasFlag (u8at d FwLayout.ModulationHead_flag_off) Cpu.MODULATION_FLAG_BEGIN = false) :
+    writeMod s d = (do
+      let s2 ← modDataPart s d FwLayout.ModulationSubseq_size (u16at d FwLayout.ModulationSubseq_size_off)
+      modEndPart s2 (u8at d FwLayout.ModulationHead_flag_off)
+        (if u8at d FwLayout.ModulationHead_flag_off &&& Cpu.MODULATION_FLAG_SEGMENT ≠ 0 then 1 else 0)) :=
+  writeMod_subseq s d hb
+
+/-- **Modulation round trip for every legal size 2 ≤ n ≤ 65536** (`ModOK`: segment 0/1, sizes, byte
+samples, 16-bit loop count, non-zero 16-bit division, decodable transition with 64-bit value not
+missing the SysTime margin), by induction over the frames: `modulation_buffer(seg)` = the samples,
+division, loop count and cycle read back, the other segment's memory and registers are untouched,
+and the request register / transition / swap chain are written iff a transition is given
+(`ModHeld`).  `g1`, `g2` are the firmware's acceptance guards at the BEGIN frame. -/
+theorem mod_roundtrip (s : State) (t : Tx) (hWF : WF s) (ht : TxOK t) (hf : Fresh s t)
+    (seg : Nat) (tr : Tr) (rep div : Nat) (samples : Array Nat) (H : ModOK s seg tr rep div samples)
+    (g1 : validateTransitionMode s.modSegment seg rep (trMode tr) = false)
+    (g2 : validateSilencerSettings s (sel s.stmDiv s.stmSegment) div = false) :
+    ∃ t' s', Sends (.modulation seg tr rep div samples) s t t' s' ∧ WF s' ∧ TxOK t' ∧ Fresh s' t' ∧
+      ModHeld s s' seg tr rep div samples :=
+  mod_roundtrip' s t hWF ht hf seg tr rep div samples H g1 g2
+
+/-- what `ModHeld` says, spelled out with the read-back accessors -/
+theorem modHeld_spelled_out {s0 s' : State} {seg : Nat} {tr : Tr} {rep div : Nat} {samples : Array Nat}
+    (h : ModHeld s0 s' seg tr rep div samples) :
+    Obs.modBuffer s' seg = .ok samples ∧ Obs.modDiv s' seg = div ∧ Obs.modRep s' seg = rep ∧
+    Obs.modCycle s' seg = samples.size ∧ Obs.modMem s' (1 - seg) = Obs.modMem s0 (1 - seg) ∧
+    Obs.modDiv s' (1 - seg) = Obs.modDiv s0 (1 - seg) ∧ Obs.modRep s' (1 - seg) = Obs.modRep s0 (1 - seg) ∧
+    Obs.modCycle s' (1 - seg) = Obs.modCycle s0 (1 - seg) ∧
+    (tr = none → s'.modSwap = s0.modSwap ∧ Obs.reqModSeg s' = Obs.reqModSeg s0 ∧
+      Obs.modTransition s' = Obs.modTransition s0) ∧
+    (∀ m v, tr = some (m, v) → Obs.reqModSeg s' = .ok seg ∧ Obs.modTransition s' = .ok (tmodeOf m v) ∧
+      SwapSet s0.modSwap s'.modSwap s0.dcSysTime rep div samples.size seg (tmodeOf m v)) := by
+  refine ⟨h.buffer, h.hdiv, h.hrep, h.hcycle, h.otherMem, h.otherRegs.1, h.otherRegs.2.1, h.otherRegs.2.2, ?_, ?_⟩
+  · intro htr; subst htr; exact h.req
+  · intro m v htr; subst htr; exact h.req
+
+/-! ### non-vacuity: concrete inputs meeting the hypotheses -/
+
+/-- the theorems apply to the power-on state of a 249-transducer device and a fresh tx buffer
+(`lastMsgId = 0xFF`, first message id 1) -/
+example : ∃ s, Fw.new 249 0 = .ok s ∧ WF s ∧ TxOK exTx := by
+  obtain ⟨s, h1, h2⟩ := wf_of_new 249 0 (by decide)
+  exact ⟨s, h1, h2, TxOK_exTx⟩
+
+example : ∃ t' s', Sends (.forceFan true) exState exTx t' s' ∧ Obs.isForceFan s' = true := by
+  obtain ⟨t', s', h, _, _, _, h5⟩ := forceFan_roundtrip exState exTx true WF_exState TxOK_exTx Fresh_ex
+  exact ⟨t', s', h, h5⟩
+
+/-- a 1000-sample modulation (3 frames: 254 + 618 + 128) to segment 1 with a SyncIdx transition and a
+finite loop, on the power-on-like state -/
+example : ∃ t' s', Sends (.modulation 1 (some (0, 0)) 3 5120 (Array.replicate 1000 7)) exState exTx t' s' ∧
+    Obs.modBuffer s' 1 = .ok (Array.replicate 1000 7) ∧ Obs.reqModSeg s' = .ok 1 := by
+  have H : ModOK exState 1 (some (0, 0)) 3 5120 (Array.replicate 1000 7) := by
+    refine ⟨by decide, by simp, by simp, ?_, by decide, by decide, ?_⟩
+    · intro i; unfold rd; by_cases h : i < 1000 <;> simp [h]
+    · intro m v h
+      simp only [Option.some.injEq, Prod.mk.injEq] at h
+      obtain ⟨rfl, rfl⟩ := h
+      exact ⟨Or.inl rfl, by decide, by decide⟩
+  obtain ⟨t', s', h, _, _, _, h5⟩ := mod_roundtrip exState exTx WF_exState TxOK_exTx Fresh_ex 1 (some (0, 0)) 3 5120
+    (Array.replicate 1000 7) H (by decide) (by decide)
+  exact ⟨t', s', h, h5.buffer, h5.req.1⟩
+
+example : ∃ t' s', Sends (.gain 1 none (Array.replicate 249 0x80FF)) exState exTx t' s' ∧ Obs.stmCycle s' 1 = 1 := by
+  obtain ⟨t', s', h, _, _, _, h5, _⟩ := gain_roundtrip exState exTx WF_exState TxOK_exTx Fresh_ex 1 (by decide) none
+    (Or.inl rfl) (Array.replicate 249 0x80FF) (by intro i; unfold rd; by_cases h : i < 249 <;> simp [h])
+  exact ⟨t', s', h, h5.cycle⟩
 
 end Autd3.C01
